@@ -49,6 +49,15 @@ pub struct Step {
     pub json: Value,
 }
 
+/// credit an account the harness does not otherwise keep (the ESDT system contract), creating it if needed
+pub fn credit_or_create(rr: &mut ScenarioVMRunner, a: &VMAddress, amount: &BigUint) {
+    if let Some(acc) = rr.blockchain_mock.state.accounts.get_mut(a) { acc.egld_balance += amount; return; }
+    rr.blockchain_mock.state.validate_and_add_account(AccountData {
+        address: a.clone(), nonce: 0, egld_balance: amount.clone(), esdt: Default::default(),
+        username: vec![], storage: Default::default(), contract_path: None,
+        code_metadata: VMCodeMetadata::empty(), contract_owner: None, developer_rewards: BigUint::from(0u32) });
+}
+
 impl World {
     pub fn new() -> Self {
         let mut w = World { r: ScenarioVMRunner::new(), tracked: vec![], tx_counter: 0 };
